@@ -524,3 +524,35 @@ Definition lex_res_eqb (a b : lex_res) : bool :=
   | LexIndexError, LexIndexError => true
   | _, _ => false
   end.
+
+(* ------------------------------------------------------------------------------------ *)
+(* SPECIFICATION of the supported escapes and of the boolean spellings: their conventional  *)
+(* meaning, written down independently of the source (compared with the translated tables  *)
+(* by ConstLitProofs.escapes_standard / ConstExprProofs.bool_spellings_standard)           *)
+(* ------------------------------------------------------------------------------------ *)
+
+(* backslash-t TAB, backslash-r CR, backslash-n LF, and backslash, single quote, double quote escape themselves *)
+Definition std_escapes : list (Z * Z) := [(116, 9); (114, 13); (110, 10); (92, 92); (39, 39); (34, 34)].
+
+Fixpoint spec_unescape (s : text) (acc : text) : lex_res :=
+  match s with
+  | [] => LexOk (rev acc)
+  | c :: r =>
+    if c =? 92 then
+      match r with
+      | [] => LexIndexError
+      | e :: r1 => match lookup_esc e std_escapes with
+                   | Some v => spec_unescape r1 (v :: acc)
+                   | None => LexInvalidEscape
+                   end
+      end
+    else spec_unescape r (c :: acc)
+  end.
+
+Definition kw_yes : text := [121; 101; 115].
+Definition kw_no : text := [110; 111].
+(* true / yes mean true, false / no mean false *)
+Definition spec_bool (sp : text) : option bool :=
+  if text_eqb sp kw_true || text_eqb sp kw_yes then Some true
+  else if text_eqb sp kw_false || text_eqb sp kw_no then Some false
+  else None.
